@@ -3,6 +3,7 @@ package sim
 import (
 	"bytes"
 	"encoding/base64"
+	"encoding/binary"
 	"encoding/gob"
 	"fmt"
 	"os"
@@ -636,10 +637,43 @@ func RunHistReuse(r *Run) {
 				} else {
 					bad = bad[:len(bad)-1-c.Intn("trunc", min(len(bad)-1, 16))]
 				}
+				if c.Intn("zeroblock", 4) == 0 {
+					// a block declared non-empty but stored with size 0 (framing otherwise intact)
+					if f, err := parseFraming(bl.b); err == nil {
+						sec := 1 + c.Intn("zsec", 3)
+						if f.sec[sec].typeOff >= 0 {
+							bad = splice(bl.b, f.sec[sec].blkSizeOff, f.sec[sec].blkSizeLen+int(f.sec[sec].blkSize), putUvarint(0))
+							if cs, n := binary.Uvarint(bad[1:]); n > 0 {
+								bad = splice(bad, 1, n, putUvarint(cs-uint64(len(bl.b)-len(bad))))
+							}
+							how = "size-0 " + secNames[sec] + " block with a non-zero declared length"
+						}
+					}
+				}
 				var derr error
-				if err := safely(func() error { _, derr = st.s.Deserialize(bad, dstObj.pj); return nil }); err != nil {
+				var dout *simdjson.ParsedJson
+				if err := safely(func() error { dout, derr = st.s.Deserialize(bad, dstObj.pj); return nil }); err != nil {
 					walkerFail(r, "deserialize", what+" (damaged blob)", err)
 					return
+				}
+				// the same call on fresh objects must give the same outcome: an error both times, or the same document
+				var fout *simdjson.ParsedJson
+				var ferr error
+				if err := safely(func() error { fout, ferr = simdjson.NewSerializer().Deserialize(bad, nil); return nil }); err != nil {
+					walkerFail(r, "deserialize", what+" (damaged blob, fresh objects)", err)
+					return
+				}
+				if (derr == nil) != (ferr == nil) {
+					r.violate("outcome", "reuse-damaged-blob-verdict", fmt.Sprintf("%s: Deserialize of a damaged blob (%s) with reused destination/serializer: err=%v, with fresh objects: err=%v; history: %v", what, how, derr, ferr, trace))
+					return
+				}
+				if derr == nil && ferr == nil {
+					a, ea := WalkInto(dout)
+					b, eb := WalkInto(fout)
+					if (ea == nil) != (eb == nil) || (ea == nil && DiffRoots(b, a, EqExact) != "") {
+						r.violate("outcome", "reuse-damaged-blob-document", fmt.Sprintf("%s: Deserialize of a damaged blob (%s) exposes a different document with reused objects than with fresh ones (%v / %v): %s; history: %v", what, how, ea, eb, DiffRoots(b, a, EqExact), trace))
+						return
+					}
 				}
 				if derr != nil {
 					dstObj.invalid = true
